@@ -64,27 +64,13 @@ theorem int_parse_print (v : Int) : pyInt (intStr v) = some v := pyInt_intStr v
 
 /-- Integer / NonNegativeInteger / PositiveInteger: the saved text of a value is accepted exactly
 when `setValue` accepts the value, and gives that value back.  (The bound keeps the text below
-CPython's `int_max_str_digits`.) -/
+CPython's `int_max_str_digits`; `int()` itself is modelled for every text, Unicode decimal digits and
+blanks included, with the interpreter's digit table extracted.) -/
 theorem int_roundtrip (k : IntClass) (v : Int) (hlen : (intStr v).length ≤ 4000)
     (hacc : k.setValue v = .ok v) : k.set (intStr v) = .ok v := by
   unfold IntClass.set
   have hun : intUnmodelled (intStr v) = false := by
-    unfold intUnmodelled
-    have hasc : (intStr v).any (fun c => decide (128 ≤ c.toNat)) = false := by
-      rw [List.any_eq_false]
-      intro c hc
-      have : c = '-' ∨ IsDig c := by
-        cases v with
-        | ofNat n => right; exact natStr_isDig n c hc
-        | negSucc n =>
-          have hc' : c ∈ '-' :: natStr (n + 1) := hc
-          rcases List.mem_cons.mp hc' with h | h
-          · left; exact h
-          · right; exact natStr_isDig _ c h
-      rcases this with rfl | h
-      · decide
-      · unfold IsDig at h; simp; omega
-    rw [hasc]; simp; omega
+    unfold intUnmodelled; simp; omega
   rw [hun, pyInt_intStr]
   simpa using hacc
 
